@@ -7,6 +7,7 @@ import (
 	"os"
 	"os/exec"
 	"path/filepath"
+	"reflect"
 	"regexp"
 	"strings"
 	"sync"
@@ -37,6 +38,11 @@ func runC17(env *Env) {
 	for _, a := range captured {
 		if !a.OK {
 			rep.Violate("C17-ownership", "source census", fmt.Sprintf("captured local %s is shared with function literals, modified after they exist, and accessed in %s (write=%v) without a lock", a.Var, a.Context, a.Write))
+		}
+	}
+	for _, a := range runStartCensus(c) {
+		if a.Class >= 9 {
+			rep.Violate("C17-ownership", "source census", fmt.Sprintf("the run loop %s.run is started in %s without a guard against a second start (sync.Once, constructor, compare-and-swap): two owner goroutines may share the value's plain fields", a.Type, a.Func))
 		}
 	}
 	rep.Notes = append(rep.Notes, fmt.Sprintf("captured-locals census: %d accesses of shared, late-modified locals", len(captured)))
@@ -96,6 +102,12 @@ func runC17(env *Env) {
 					}
 				} else if races == 0 {
 					rep.Notes = append(rep.Notes, "race report without engine frames (harness-only) in "+sub)
+				}
+			}
+			for _, line := range strings.Split(text, "\n") {
+				if strings.HasPrefix(line, "C17CONC-VIOLATION: ") {
+					panics++
+					rep.Violate("C17-outcome", cs, strings.TrimPrefix(line, "C17CONC-VIOLATION: "))
 				}
 			}
 			for _, marker := range []string{"\npanic: ", "\nfatal error: "} {
@@ -189,19 +201,42 @@ func init() {
 					xg := q.Node("xor", xn)
 					q.Flow("F", xn, "")
 					for ci := 0; ci < 3; ci++ {
-						q.Flow(xn, "end", fmt.Sprintf("n + %d == %d", r*1000+bi*10+ci, -1-ci))
+						// padded as in an indented document
+						q.Flow(xn, "end", fmt.Sprintf("\n          n + %d == %d\n        ", r*1000+bi*10+ci, -1-ci))
 					}
 					xg.Default = q.Flow(xn, "end", "").ID
 				}
 				qd, err := ParseDefs(q.XML(""))
 				must(err)
-				qi, err := StartInst(qd, InstOpt{Vars: map[string]any{"n": 1}})
+				qref, err := ParseDefs(q.XML("")) // a second parse of the same text, never run
 				must(err)
-				qi.WaitCease(tmoStep)
-				if countEv(qi.Log(), "error", "*") > 0 {
-					rep.Violate("C17-outcome", fmt.Sprintf("round %d", r), "error traces while evaluating conditions concurrently; log: "+logString(qi.Log()))
+				// several instances of the one parsed document, started together: its definitions are shared
+				var qis []*Inst
+				var qmu sync.Mutex
+				var qwg sync.WaitGroup
+				for k := 0; k < 3; k++ {
+					qwg.Add(1)
+					go func() {
+						defer qwg.Done()
+						qi, err := StartInst(qd, InstOpt{Vars: map[string]any{"n": 1}})
+						must(err)
+						qmu.Lock()
+						qis = append(qis, qi)
+						qmu.Unlock()
+					}()
 				}
-				qi.Close()
+				qwg.Wait()
+				for _, qi := range qis {
+					qi.WaitCease(tmoStep)
+					if countEv(qi.Log(), "error", "*") > 0 {
+						rep.Violate("C17-outcome", fmt.Sprintf("round %d", r), "error traces while evaluating conditions concurrently; log: "+logString(qi.Log()))
+					}
+					qi.Close()
+				}
+				// running instances reads the shared definitions only
+				if !reflect.DeepEqual(qd, qref) {
+					rep.Violate("C17-outcome", fmt.Sprintf("round %d", r), "running instances changed the parsed document they share: it differs from a second parse of the same text")
+				}
 			}
 			for i := 0; i < 40; i++ {
 				tt := in.WaitTask("T", tmoStep)
@@ -216,6 +251,9 @@ func init() {
 			wg.Wait()
 			in.Close()
 			rep.Evaluations++
+		}
+		for _, v := range rep.Violations {
+			fmt.Printf("C17CONC-VIOLATION: %s | %s | %s\n", v.Key, v.Case, strings.ReplaceAll(firstLines(v.Detail, 3), "\n", " "))
 		}
 		env.WriteReport(rep)
 	}
